@@ -711,6 +711,10 @@ def atomic_and_group_arms(run, ctx):
             n2 += 1
             behind = [ev for ev in p.events if ev.kind == "cond" and re.match(r"^\((LookAround::)?LookBehind(Neg)? == %s\)$|^\(%s == (LookAround::)?LookBehind(Neg)?\)$" % (LA, LA), ev.a)]
             is_behind = any(ev.b for ev in behind)
+            la_arms = [ev for ev in p.events if ev.kind == "arm" and ev.a == LA]
+            if la_arms:
+                pat_ = la_arms[-1].b or ""
+                is_behind = "LookBehind" in pat_ and "LookAhead" not in pat_
             gb = [ev for ev in p.events if ev.kind == "call" and ev.a.startswith("self.b.add(Insn::GoBack(")]
             body = [ev for ev in p.events if ev.kind == "call" and ev.a.startswith("self.visit(")]
             cs = [ev for ev in p.events if ev.kind == "cond" and ev.a in ("%s.const_size" % INNER, "!%s.const_size" % INNER)]
